@@ -66,6 +66,21 @@ def r2_cli_suppress(cx):
             and guard_texts(st[0], stop=enclosing(x, ast.For)) <= guard_texts(x, stop=enclosing(x, ast.For)) and enclosing(st[0], ast.For) is enclosing(x, ast.For)
         cx.require(ok, x, "every CLI option is registered with default=argparse.SUPPRESS (an option not given does not override file/env values)",
                    construct="%s ; %s" % (short(st[0]) if st else "(no default assignment)", short(x)))
+    # whatever this function caches in self._cli_opts is later taken for the whole command line (the early-return guard): every pass must
+    # register every option and parse strictly - a conf-only pre-pass that keeps just '--conf' silently drops the other switches
+    ps_ = set(params(fn)[1:])
+    dep = []
+    for x_ in find_calls(fn.body, attr="add_argument"):
+        for t_, p_ in guard_texts(x_):
+            if any(isinstance(n_, ast.Name) and n_.id in ps_ for n_ in ast.walk(ast.parse(t_, mode="eval"))):
+                dep.append(x_)
+    for c_ in [n_ for n_ in ast.walk(fn) if isinstance(n_, ast.comprehension) and "DEFAULT_OPTS" in U(n_.iter)]:
+        if any(isinstance(n_, ast.Name) and n_.id in ps_ for i_ in c_.ifs for n_ in ast.walk(i_)):
+            dep.append(c_.ifs[0])
+    cx.require(not dep, dep[0] if dep else fn, "every option that has command-line flags is registered in every pass (which options are registered never depends on a parameter such as conf_only)",
+               construct=short(dep[0], 100) if dep else "registration independent of %s" % sorted(ps_))
+    pk = [x for x in find_calls(fn.body, attr="parse_known_args")]
+    cx.require(not pk, pk[0] if pk else fn, "the command line is parsed strictly (parse_args), never partially", construct=short(pk[0]) if pk else "parser.parse_args()")
     pa = [x for x in find_calls(fn.body, attr="parse_args")]
     up = [x for x in find_calls(fn.body, attr="_update_dict") if U(x.args[0]) == "self._cli_opts"]
     cx.require(bool(pa) and bool(up), fn, "the parsed options are merged as the last layer", rule="C16.R2", construct="self._cli_opts = vars(options); self._update_dict(self._cli_opts)")
